@@ -20,6 +20,7 @@ type Env struct {
 	pkg   *types.Package
 	bound map[string]bool
 	qdepth int
+	atEnd  bool // names are resolved at the end of block `at` (postconditions), not at its head
 }
 
 func (fx *fnExec) baseEnv(cur *State) *Env {
@@ -93,7 +94,7 @@ func (fx *fnExec) eval(e *Expr, env *Env) TV {
 			return v
 		}
 		if env.fr != nil {
-			if v, ok := env.fr.resolveName(e.Name, env.at); ok {
+			if v, ok := env.fr.resolveName(e.Name, env.at, env.atEnd); ok {
 				return v
 			}
 		}
@@ -197,12 +198,22 @@ func (fx *fnExec) constTV(c *types.Const) TV {
 
 // resolveName finds the SSA value that holds source variable `name` at loop header `at`:
 // a phi of that header (or of an enclosing header) named `name`, else the latest dominating definition.
-func (fr *frame) resolveName(name string, at *ssa.BasicBlock) (TV, bool) {
+func (fr *frame) resolveName(name string, at *ssa.BasicBlock, atEnd bool) (TV, bool) {
 	cands := fr.names[name]
 	// prefer a phi at this header
 	for _, v := range cands {
-		if phi, ok := v.(*ssa.Phi); ok && phi.Block() == at {
+		if phi, ok := v.(*ssa.Phi); ok && phi.Block() == at && !atEnd {
 			return TV{fr.vals[phi], phi.Type()}, true
+		}
+	}
+	if atEnd {
+		// the latest definition in `at` itself, if any
+		for i := len(cands) - 1; i >= 0; i-- {
+			if in, ok := cands[i].(ssa.Instruction); ok && in.Block() == at {
+				if val, ok := fr.vals[cands[i]]; ok {
+					return TV{val, cands[i].Type()}, true
+				}
+			}
 		}
 	}
 	var best ssa.Value
